@@ -20,8 +20,6 @@ def spec_sub_mesh(mesh, indices):
     n = len(patt)
     idx = sorted(indices)
     k = len(idx)
-    if k == 0:
-        return ((), frozenset())  # documented: empty index set -> empty unshaded pattern
     new = S.std([patt[i] for i in idx])
     # doubled coordinates: point i at (2i, 2 patt[i]); original cell (a, b) has centre (2a-1, 2b-1)
     xs = [-2] + [2 * i for i in idx] + [2 * n]
